@@ -26,6 +26,7 @@ func init() {
 		},
 		Work: func(w *Worker) {
 			c05Matrices(w)
+			c05WideMatrices(w)
 			forEachGrammar(w, classesFor(w), false, true, func(idx int64, c *GCase) { c05Eval(w, c) })
 			genPhase(w, "C05")
 		},
@@ -81,6 +82,41 @@ func c05Matrices(w *Worker) {
 				c05OneMatrix(w, m)
 			}
 			idx++
+		}
+	}
+}
+
+// c05WideMatrices: every 2x3 and 3x3 matrix over {0, 7, -3} with its three columns spread over a
+// row of 72 cells (tables of real grammars have one column per symbol: more than 64 is common).
+func c05WideMatrices(w *Worker) {
+	idx := int64(1) << 41
+	placements := [][3]int{{0, 64, 65}, {1, 63, 64}, {0, 1, 70}, {62, 63, 64}, {5, 69, 71}}
+	for _, rows := range []int{2, 3} {
+		n := rows * 3
+		total := 1
+		for i := 0; i < n; i++ {
+			total *= 3
+		}
+		for code := 0; code < total; code++ {
+			for _, pl := range placements {
+				if w.Mine(idx) {
+					m := make([][]int, rows)
+					c := code
+					for r := range m {
+						m[r] = make([]int, 72)
+						for j := 0; j < 3; j++ {
+							m[r][pl[j]] = []int{0, 7, -3}[c%3]
+							c /= 3
+						}
+					}
+					if idx%4096 == 0 {
+						w.Begin(idx, &GCase{Origin: "matrix", Extra: mustJSON(m)})
+					}
+					w.Count("wide_matrices", 1)
+					c05OneMatrix(w, m)
+				}
+				idx++
+			}
 		}
 	}
 }
